@@ -795,6 +795,8 @@ ALLOC0 = z3.Function("allocated_at_entry", Ref, z3.BoolSort())
 def ub_copy(cx, ub, update=None):
     new = SRef.fresh("IH5UserBlock", "ub_copy")
     cx.assume(z3.Not(ALLOC0(new.t)))  # T5_COPY: a new object
+    for other in cx.ghost.get("fresh_ubs", []):  # ... also different from every object created earlier in this call
+        cx.assume(new.t != other.t)
     d = ClassDecl.get("IH5UserBlock")
     upd = update or {}
     for f, ft in d.all_fields().items():
